@@ -142,6 +142,7 @@ Proof.
     - reflexivity.
     - cbn [parse_list]. destruct (budget <=? 0); [reflexivity|].
       destruct (parse_next k dep body) as [e c raw cn| |]; try reflexivity.
+      destruct (budget - c <? 0); [reflexivity|].
       rewrite IH. reflexivity. }
   rewrite E. reflexivity.
 Qed.
@@ -440,6 +441,7 @@ Proof.
     rewrite dropZ_skipn, lenZ_to_nat.
     rewrite (skipn_len_app _ a (b ++ tail) (length a) eq_refl).
     replace (lenZ (a ++ b) - lenZ a) with (lenZ b) by (rewrite lenZ_app; lia).
+    replace (lenZ b <? 0) with false by (symmetry; apply Z.ltb_ge; apply lenZ_nonneg).
     rewrite (IH Hr pn dep k' tail b eq_refl Hokr ltac:(lia)).
     + cbn [andb]. f_equal. rewrite lenZ_app. reflexivity.
     + rewrite !app_length in *. lia.
@@ -659,6 +661,7 @@ Proof.
   - cbn [parse_list] in H. destruct (budget <=? 0).
     { inversion H; subst. repeat split; try reflexivity; cbn; lia. }
     destruct (parse_next pn dep d) as [e c raw cn| |] eqn:Ep; try discriminate.
+    destruct (budget - c <? 0); [discriminate|].
     rewrite dropZ_skipn in H.
     destruct (parse_list pn dep k' (skipn (Z.to_nat c) d) (budget - c)) as [l' used' cn'| |] eqn:El; try discriminate.
     inversion H; subst l used. clear H.
@@ -895,7 +898,8 @@ Proof.
     intros dep fuel. induction fuel as [|k' IHf]; intros d budget Hl Hf; [lia|].
     cbn [parse_list]. destruct (budget <=? 0); [discriminate|].
     destruct (parse_next (S k) dep d) as [e c raw cn| |] eqn:Ep; try discriminate.
-    + rewrite dropZ_skipn.
+    + destruct (budget - c <? 0); [discriminate|].
+      rewrite dropZ_skipn.
       destruct (parse_list (S k) dep k' (skipn (Z.to_nat c) d) (budget - c)) eqn:El; try discriminate.
       exfalso.
       assert (Hc : (0 < Z.to_nat c)%nat).
@@ -927,3 +931,14 @@ Qed.
 (* the element type codes hard-wired in the model are those of the regenerated enum *)
 Lemma sdp_type_codes_checked : sdp_type_codes = [0; 1; 2; 3; 4; 5; 6; 7; 8].
 Proof. reflexivity. Qed.
+
+(* an element that ends beyond the declared end of its container is rejected (D17b), never
+   silently cut back to the container's end *)
+Lemma parse_list_overrun_rejected : forall pn dep k' d budget e c raw cn,
+  0 < budget -> parse_next pn dep d = POk e c raw cn -> budget < c ->
+  parse_list pn dep (S k') d budget = LErr.
+Proof.
+  intros pn dep k' d budget e c raw cn Hb Hp Hc. cbn [parse_list].
+  replace (budget <=? 0) with false by (symmetry; apply Z.leb_gt; lia).
+  rewrite Hp. replace (budget - c <? 0) with true by (symmetry; apply Z.ltb_lt; lia). reflexivity.
+Qed.
